@@ -159,6 +159,17 @@ fn only_nonfinite_irregular(d: &Doc) -> bool {
     }
 }
 
+/// Canonical numbers everywhere; objects may repeat keys.
+fn only_duplicate_keys_irregular(d: &Doc) -> bool {
+    match d {
+        Doc::Neg(x) => *x < 0,
+        Doc::Float(f) => f.is_finite(),
+        Doc::Seq(v) => v.iter().all(only_duplicate_keys_irregular),
+        Doc::Obj(m) => m.iter().all(|(_, v)| only_duplicate_keys_irregular(v)),
+        _ => true,
+    }
+}
+
 fn any_class(_: &ReportClass) -> bool {
     true
 }
@@ -202,10 +213,20 @@ pub fn spec(prop: &str) -> Option<PropSpec> {
             id: "C03",
             groups: all,
             scripts: Scripts::Tree,
-            adversarial: false,
+            adversarial: true,
             uses_reference: false,
-            check: Box::new(|_, s, out, keep| {
-                check_c03_frame(out)?;
+            check: Box::new(|c, s, out, keep| {
+                let _ = &c;
+                if !c.plain {
+                    // of the payloads only the second source can present: non-finite floats into a
+                    // serde_json::Value target (the only reports that target makes); its inner frames
+                    // are not probed, so the frame rule does not apply
+                    if !(only_nonfinite_irregular(c.payload) && contains_json_target(c.cat, c.ty)) {
+                        return Ok(());
+                    }
+                } else {
+                    check_c03_frame(out)?;
+                }
                 check_c03_suffix(out)?;
                 check_c03_prefix(out, keep)?;
                 if is_all_break(out) || (s.default && s.prefix.is_empty()) {
@@ -219,10 +240,10 @@ pub fn spec(prop: &str) -> Option<PropSpec> {
             id: "C04",
             groups: all,
             scripts: Scripts::Tree,
-            adversarial: false,
+            adversarial: true,
             uses_reference: false,
-            check: Box::new(|c, _, out, _| check_c04(c.payload, out, c.tag_exempt)),
-            rule: "state space as C01 (canonical payloads, distinct values at sibling positions). For every execution under every explored answer script, every report is checked against the payload itself: the location resolves; kind/arity `actual` equals the value found there and is of a non-accepted kind / wrong length; a missing field is absent there; an unknown key is present there and not accepted; an unknown value is the string there; every hand-over location is the position of the direct child frame that failed (from the probe bracket structure) and a prefix of every report handed over; user functions receive their container's location.",
+            check: Box::new(|c, _, out, _| check_c04_with(c.payload, out, c.tag_exempt, !c.plain)),
+            rule: "state space as C01 (canonical payloads with distinct values at sibling positions; for the duplicate-key payloads of the second source only key presence / absence and location existence are checked). For every execution under every explored answer script, every report is checked against the payload itself: the location resolves; kind/arity `actual` equals the value found there and is of a non-accepted kind / wrong length; a missing field is absent there; an unknown key is present there and not accepted; an unknown value is the string there; every hand-over location is the position of the direct child frame that failed (from the probe bracket structure) and a prefix of every report handed over; user functions receive their container's location.",
         },
         "C02" => {
             let cfg = RefCfg { asp: Aspects { status: true, value: false, reports: true, visited: true, calls: false }, report_class: any_class, call_class: any_call };
@@ -264,7 +285,7 @@ pub fn spec(prop: &str) -> Option<PropSpec> {
             let cfg = RefCfg { asp: Aspects { status: true, value: true, reports: true, visited: true, calls: false }, report_class: cls, call_class: any_call };
             PropSpec {
                 id: "C07",
-                groups: &["A", "B1", "B2", "B3", "B4", "B5", "C2", "G"],
+                groups: &["A", "B1", "B2", "B3", "B4", "B5", "B6", "C2", "G"],
                 scripts: Scripts::KeepOnly,
                 adversarial: false,
                 uses_reference: true,
@@ -279,14 +300,28 @@ pub fn spec(prop: &str) -> Option<PropSpec> {
             fn calls(u: &UserCall) -> bool {
                 matches!(u, UserCall::CustomMissing { .. } | UserCall::Map { .. })
             }
+            fn calls_missing(u: &UserCall) -> bool {
+                matches!(u, UserCall::CustomMissing { .. })
+            }
             let cfg = RefCfg { asp: Aspects::ALL, report_class: cls, call_class: calls };
+            // duplicate keys (second source only): which value wins is not fixed, but a key that
+            // occurs — however often — is present, so the missing-field reports are still determined
+            let cfg_dup = RefCfg { asp: Aspects { status: false, value: false, reports: true, visited: false, calls: true }, report_class: cls, call_class: calls_missing };
             PropSpec {
                 id: "C08",
-                groups: &["A", "B1", "B2", "B4", "B5", "C2", "G"],
+                groups: &["A", "B1", "B2", "B4", "B5", "B6", "C2", "G"],
                 scripts: Scripts::KeepOnly,
-                adversarial: false,
+                adversarial: true,
                 uses_reference: true,
-                check: Box::new(move |c, _, out, _| reference_check(c, out, cfg, false)),
+                check: Box::new(move |c, _, out, _| {
+                    if c.plain {
+                        reference_check(c, out, cfg, false)
+                    } else if only_duplicate_keys_irregular(c.payload) {
+                        reference_check(c, out, cfg_dup, true)
+                    } else {
+                        Ok(())
+                    }
+                }),
                 rule: "states = (derived type mixing default / default = expr / skip / missing_field_error / map / Option fields; payload with any subset of keys deleted, nulled or corrupted up to the fault bound, plus small documents). Oracle: MissingField(effective key) at the container's location exactly for non-skipped, non-defaulted, absent keys (null = present; present-but-invalid not additionally missing); the custom function called exactly then with exactly (key, location); defaults taken iff absent with map on top; a skipped field never examined (no probe Enter under any of its names).",
             }
         }
@@ -300,7 +335,7 @@ pub fn spec(prop: &str) -> Option<PropSpec> {
             let cfg = RefCfg { asp: Aspects { status: false, value: false, reports: true, visited: false, calls: true }, report_class: cls, call_class: calls };
             PropSpec {
                 id: "C09",
-                groups: &["A", "B1", "B3", "B4", "B5", "C2", "D", "G"],
+                groups: &["A", "B1", "B3", "B4", "B5", "B6", "C2", "D", "G"],
                 scripts: Scripts::KeepOnly,
                 adversarial: false,
                 uses_reference: true,
